@@ -324,7 +324,11 @@ impl PeerHandler {
             }
             BroadCmd::SendOwnState { am_choked_map } => {
                 match am_choked_map.get(&self.connection.addr) {
-                    Some(true) => self.connection.send_msg(&Choke::new()).await?,
+                    Some(true) => {
+                        self.connection.send_msg(&Choke::new()).await?;
+                        // Piece loaded for this peer can't be served any more without asking manager
+                        self.piece_tx = None;
+                    }
                     Some(false) => self.connection.send_msg(&Unchoke::new()).await?,
                     None => (),
                 }
